@@ -87,6 +87,23 @@ let step _ cs os =
     if not (Fleet.ok_C19 max script model) then out := "BAD\tside=model\tclause=ok_C19(model)=false" :: !out;
     if not (Fleet.ok_C19 max script impl) then out := "BAD\tside=impl\tclause=ok_C19" :: !out;
     if not (Fleet.c19_obs_eqb impl model) then out := "DIFF\tfields=attempts/result-class/connected/follow-ups" :: !out;
+    (* cut=<spec> (harness-only switch): the scenario above (empty script: the node is healthy the whole time)
+       ran on a fleet on which one earlier call on the cold node was abandoned by its caller (its future
+       dropped before / during / after the TCP connect or while it waited for the reply). The node's
+       outcome for every later attempt is "success", so the model and oracle above judge the calls as
+       they are. A call that did not return within the harness's watchdog is reported as res "hung" and
+       ends the case (what would have followed is reported as "skipped"); no reply was reported, so it is
+       judged above as an error result: "a later attempt or call reconnects and succeeds once the node
+       is reachable again". Driver-level clause for the broadcast afterwards: "A broadcast addresses
+       exactly the nodes carrying all requested tags and returns exactly one result per addressed
+       node" (no tags requested: the single node n0), and that result is the healthy node's reply. *)
+    (match get_opt f "cut" with
+     | Some _ ->
+       if Stdlib.List.exists (fun t -> contains t "hung") (get o "res" :: get o "conn" :: split_on ',' (get o "follow")) then
+         out := "BAD\tside=impl\tclause=after an abandoned call on a healthy node a later call did not return within the watchdog (node wedged: \"a later attempt or call reconnects and succeeds once the node is reachable again\")" :: !out;
+       if get o "bc" <> "n0" && get o "bc" <> "skipped" then
+         out := ("BAD\tside=impl\tclause=after an abandoned call on a healthy node the broadcast to all nodes yields " ^ get o "bc" ^ ", expected exactly one successful result for n0") :: !out
+     | None -> ());
     !out
 
 let () = run step
